@@ -576,6 +576,43 @@ def specials():
     for fmt_, kind_ in (("vdi", "vdi"), ("vhdx", "vhdx"), ("vhd", "vhd"), ("hds", "hds2"), ("vmdk", "vmdk-hosted")):
         out.append((kind_, "valid-image-256MiB-units-small-reads", large_units(fmt_), 64, 8))
 
+    def keysafe_big_list(work):
+        # a key safe whose list holds one pair with a very long nested list (megabytes of text): parsing stays linear
+        from dissect.hypervisor.descriptor.vmx import VMX
+        pt = enc_vmx.pair_text("p", bytes(32), rounds=1)
+        inner = "list/(" + ",".join(["pair/(phrase/a/b,c,d)"] * 120000) + ")"
+        ks = "vmware:key/list/(" + pt + ",pair/(" + inner + ",HMAC-SHA-1,QUJD))"
+        text = enc_vmx.vmx_text({}, ks, b"\0" * 64)
+
+        def go():
+            try:
+                VMX.parse(text).unlock_with_phrase("p")
+            except Exception:  # noqa: BLE001
+                pass
+        return go
+    out.append(("vmx", "keysafe-with-a-2.6MB-nested-list", keysafe_big_list, 2700, 1))
+
+    def qcow2_many_tables(work):
+        # 500 L1 entries whose 64 KiB L2 tables overlap in a 3 MiB file, one small read per L1 range: the table cache is bounded
+        cs, l2n, nl1 = 65536, 8192, 500
+        size = nl1 * l2n * cs
+        l1_off = cs
+        hdr = enc_qcow2.header(version=3, cluster_bits=16, size=size, l1_size=nl1, l1_offset=l1_off, refcount_offset=0, header_length=104)
+        l1 = b"".join(struct.pack(">Q", (3 * cs + 512 * i) | (1 << 63)) for i in range(nl1))
+        blob = bytearray(3 * cs + 512 * nl1 + cs)
+        blob[:len(hdr)] = hdr
+        blob[l1_off:l1_off + len(l1)] = l1
+        blob = bytes(blob)
+
+        def go():
+            from dissect.hypervisor.disk.qcow2 import QCow2
+            q = QCow2(io.BytesIO(blob))
+            for i in range(nl1):
+                q.seek(i * l2n * cs + 7)
+                q.read(1)
+        return go
+    out.append(("qcow2", "500-overlapping-64KiB-L2-tables-one-read-each", qcow2_many_tables, 3300, 3))
+
     def vhdx_self_parent(which):
         def run(work):
             from pathlib import Path
